@@ -82,6 +82,25 @@ def cook_publication_order(spec):
                    'precedes the single top-level `self._cooked = True`',
                    {'flag_statement_index': flag_idx, 'publishing_statement_indices': publish_idx,
                     'conditional_flag_writes_at_lines': early, 'function_line': fn.lineno}))
+    # a re-cook never takes a render function away that the new compilation provides: stale ones are
+    # removed AFTER the new ones are in place, and only those the new compilation does not define
+    install_idx = [i for i, st in enumerate(fn.body) for n in ast.walk(st)
+                   if isinstance(n, ast.Call) and isinstance(n.func, ast.Name) and n.func.id == 'setattr']
+    removals = []
+    for i, st in enumerate(fn.body):
+        for n in ast.walk(st):
+            if isinstance(n, ast.Call) and isinstance(n.func, ast.Name) and n.func.id == 'delattr':
+                guard = [ast.unparse(t.test) for t in ast.walk(st) if isinstance(t, ast.If)]
+                removals.append((i, guard))
+            if isinstance(n, ast.Delete) and any('self' in ast.unparse(t) for t in n.targets):
+                removals.append((i, ['del statement']))
+    ok2 = all(install_idx and i > max(install_idx) and any('not in functions' in g for g in guard)
+              for i, guard in removals)
+    obls.append(ob('cook.install_before_remove', ok2,
+                   'BaseTemplate.cook removes a `_render*` attribute only after the new functions are installed '
+                   'and only if the new compilation does not define it (no window in which a compiled template '
+                   'has no render function)',
+                   {'install_statement_indices': install_idx, 'removals': removals}))
     return {'unit': 'frames.cook_publication_order', 'function': 'template.py::BaseTemplate.cook',
             'obligations': obls, 'wall': time.time() - t0,
             'assumptions': ['attribute writes are sequentially consistent (CPython GIL); schedules are '
